@@ -31,6 +31,7 @@ META = {
                     "stubs for GAF reader, GFA.extract_path, pysam.FastaFile and WavefrontAligner (constant 10M alignment)"],
 }
 META["explanation"] += '  Records alternate between three kinds: short (realigned), more than 60000 read bases without optional fields, more than 60000 read bases with three optional fields (both passed through by the worker); every written part must be one well-formed line.'
+META["explanation"] += '  Each configuration is driven through one of three entry points: realign_gaf, run_realign writing to standard output, run_realign writing to a file.'
 
 CONFIGS = {
     "quick": [(1, 1, 1, 1), (1, 2, 2, 1), (1, 1, 2, 1), (2, 1, 2, 1), (1, 1, 1, 2), (1, 2, 3, 1), (2, 1, 1, 1), (3, 2, 2, 1), (2, 2, 4, 0)],
